@@ -15,6 +15,7 @@ fn check(ctx: &mut Ctx, ty: &str, vals: &[u64], got: Result<Version, crate::obse
     ctx.eval(1);
     let arity = vals.len();
     let text = if arity == 3 { format!("{}.{}.{}", vals[0], vals[1], vals[2]) } else { format!("{}.{}.{}-{}", vals[0], vals[1], vals[2], vals[3]) };
+    ctx.begin(|| format!("C18 {} tuple {:?}", ty, vals));
     let w = json!({"type": ty, "tuple": vals});
     let got = match got {
         Ok(g) => g,
